@@ -276,3 +276,43 @@ pub fn compare_pruned(before: &Snap, after: &Snap, probes: &[Vec<f64>], ev: &mut
     }
     Ok(())
 }
+
+/// Like `coeffs_match`, but a decision predicate may be stored as any positive multiple of the exact
+/// rows (row by row): `a x <= b` and `(λa) x <= λb`, λ > 0, denote the same half-space, and the
+/// property speaks about the function, not the scaling. In the exact regime the multiple must be
+/// exactly common to the whole row (otherwise inputs on the hyperplane can be routed differently).
+pub fn predicate_matches_up_to_scale(stored: &SNode, mat: &[Vec<Q>], bias: &[Q], exact_regime: bool, scale: f64) -> Result<(), String> {
+    if stored.mat.len() != mat.len() || stored.bias.len() != bias.len() {
+        return Err(format!("{} rows vs {}", stored.mat.len(), mat.len()));
+    }
+    for i in 0..mat.len() {
+        if stored.mat[i].len() != mat[i].len() {
+            return Err(format!("row {} width {} vs {}", i, stored.mat[i].len(), mat[i].len()));
+        }
+        let mut ex: Vec<Q> = mat[i].clone();
+        ex.push(bias[i].clone());
+        let mut st: Vec<f64> = stored.mat[i].clone();
+        st.push(stored.bias[i]);
+        let pivot = ex.iter().position(|q| !q.is_zero());
+        let lambda = match pivot {
+            None => {
+                if st.iter().all(|v| *v == 0.0) {
+                    continue;
+                }
+                return Err(format!("row {}: exact predicate row is zero but the stored one is not", i));
+            }
+            Some(k) => Q::from_f64(st[k]).div(&ex[k]),
+        };
+        if !lambda.is_pos() {
+            return Err(format!("row {}: stored predicate is not a positive multiple of the exact one (factor {})", i, lambda.to_f64()));
+        }
+        for k in 0..ex.len() {
+            let want = ex[k].mul(&lambda);
+            let ok = if exact_regime { Q::from_f64(st[k]) == want } else { (st[k] - want.to_f64()).abs() <= 1e-12 * scale * lambda.to_f64().max(1.0) };
+            if !ok {
+                return Err(format!("row {} entry {}: stored {:e}, exact {:e} (times the row factor {:e} = {:e})", i, k, st[k], ex[k].to_f64(), lambda.to_f64(), want.to_f64()));
+            }
+        }
+    }
+    Ok(())
+}
